@@ -672,6 +672,11 @@ class DiscreteFourierTransformInverse(DiscreteFourierTransformBase):
             pass
         effort = flags[0] if flags else 'measure'
 
+        if self.halfcomplex and x.ndim > 1:
+            # Multi-dimensional complex-to-real transforms destroy their
+            # input, which is the data of the operator argument
+            x = x.copy()
+
         direction = 'forward' if self.sign == '-' else 'backward'
         self._fftw_plan = pyfftw_call(
             x, out, direction=direction, axes=self.axes,
